@@ -37,8 +37,10 @@ from pydiverse.transform._internal.tree.col_expr import (
     Col,
     ColExpr,
     ColFn,
+    EvalAligned,
     LiteralCol,
     Order,
+    Series,
 )
 from pydiverse.transform._internal.util.warnings import warn
 
@@ -348,6 +350,12 @@ class SqlImpl(TableImpl):
 
         elif isinstance(expr, Cast):
             return cls.compile_cast(expr, sqa_expr)
+
+        elif isinstance(expr, EvalAligned | Series):
+            raise NotSupportedError(
+                f"`eval_aligned` is not supported by the backend `{cls.backend_name}`: values "
+                "cannot be aligned with the rows of a SQL query"
+            )
 
         raise AssertionError
 
